@@ -207,7 +207,7 @@ def merge(pid, chk, tier, seed, results, scratch, t_start, build_s, shards):
             if k != "wall_s":
                 bounds[k] = v
         for s in (r.get("scenarios") or []):
-            a = scen.setdefault(s["name"], {"name": s["name"], "P": s.get("P"), "T": s.get("T"), "executions": 0, "transitions": 0,
+            a = scen.setdefault(s["name"], {"name": s["name"], "P": s.get("P"), "T": s.get("T"), "N": s.get("N"), "D": s.get("D"), "executions": 0, "transitions": 0,
                                             "states": 0, "exhaustive_within_bound": True, "distinct_outcomes": set(), "max_choice_points": 0})
             a["executions"] += s["executions"]
             a["transitions"] += s["transitions"]
@@ -285,7 +285,7 @@ def merge(pid, chk, tier, seed, results, scratch, t_start, build_s, shards):
     print("%s tier=%s executions=%d states=%d transitions=%d outcome_classes=%d exhaustive=%s wall=%.1fs (build %.1fs)" % (
         pid, tier, ev["evaluations"], ev["states"], ev["transitions"], len(outcomes), exhaustive, time.time() - t_start, build_s))
     for a in cov["scenarios"]:
-        print("  scenario %-40s P=%s T=%s execs=%-9d outcomes=%-4d exhaustive=%s" % (a["name"], a["P"], a["T"], a["executions"], a["distinct_outcomes"], a["exhaustive_within_bound"]))
+        print("  scenario %-40s P=%s T=%s N=%s D=%s execs=%-9d outcomes=%-4d exhaustive=%s" % (a["name"], a["P"], a["T"], a.get("N"), a.get("D"), a["executions"], a["distinct_outcomes"], a["exhaustive_within_bound"]))
     for l in lines:
         print(l)
     sys.stdout.flush()
